@@ -78,6 +78,19 @@ async def scenario(world, spec):
             except BaseException as e:  # noqa: BLE001
                 world.trace.log("cancel-error", exc=type(e).__name__)
         inc.spawn(canc())
+    if world.tape.chance(40, 100, "ext?"):
+        async def sender():
+            for _ in range(world.tape.rng_int(1, 4, "ext.n")):
+                d = world.tape.choice(world.cfg["grid"], "ext.delay")
+                if d:
+                    await asyncio.sleep(d)
+                tname = world.tape.choice(list(spec["types"]) + ["X0"], "ext.type")
+                world.fault("external-send")
+                try:
+                    await inc.service.send_event("h1", world.mk(tname, -1, "ext"))
+                except BaseException as e:  # noqa: BLE001
+                    world.trace.log("send-rejected", exc=type(e).__name__)
+        inc.spawn(sender())
     await world.loop.quiesce()
     if spec["driver"] == "finish" and _read_status(world) and _read_status(world)[0] == "running":
         world.trace.log("quiescent", phase="pre-fin")
